@@ -8,7 +8,7 @@ def tail(s, n=2500):
     return s[-n:]
 
 
-REQ = ["Verif.lib.PyLite", "Verif.gen.BananaGen", "Verif.gen.SlicersGen", "Verif.lib.Token", "Verif.lib.Obj"]
+REQ = ["Verif.lib.PyLite", "Verif.gen.BananaGen", "Verif.gen.SlicersGen", "Verif.lib.Token", "Verif.lib.Obj", "Verif.lib.ObjDefer"]
 
 V1 = None
 
@@ -40,21 +40,32 @@ def run(ctx):
         "text is modelled as its UTF-8 byte string and floats as their 8 bytes: str.encode/decode('UTF-8') and struct.pack/unpack('!d') "
         "are CPython's (checked on every generated case by the oracle, not modelled)",
         "Decimal is modelled as str(d); decimal.Decimal(str(d)) is CPython's (checked by the oracle)",
-        "Twisted Deferred machinery that completes tuples/frozensets inside cycles is abstracted: the model's reference is a "
-        "pointer to the numbered node; agreement of the final graphs is checked on every case (matcher + isomorphism)",
+        "Twisted's Deferred is modelled by its contract only (callbacks run once, synchronously, in registration order, each handed the "
+        "previous one's return value); lib/ObjDefer.v models what foolscap builds on it (placeholders, update callbacks, "
+        "num_unreferenceable_children, complete(), cascades) and is compared with the implementation on every case; ready_deferred / "
+        "AsyncAND is always None for the pass-by-value types and is not modelled",
+        "ObjDefer.fill tests that the placeholder is where the callback expects it (the code assigns unconditionally) and `complete` "
+        "tests that the object is still pending: defensive, compared per case; a Deferred child of a call/arguments scope and a "
+        "reference to a frozenset (never emitted: FrozenSetSlicer.trackReferences = False, translated) are refused / modelled as a pointer",
+        "that the Deferred-level receiver DOES deliver (no refusal, nothing left pending) is not proved in general (C01_deferred_sound "
+        "is partial correctness): evaluated per case by vm_compute and compared with the implementation",
         "dict/set membership semantics (hash/==) are Python's: the model keeps children as sequences; key uniqueness is a property of the sender's dict",
         "every Copyable type name in a graph is registered on the receiving side (registerRemoteCopy)",
-        "byte-level receive (handleData, StringChain) is the lead's C07; here `decode` of Token.v stands for it and the real "
+        "byte-level receive (handleData, StringChain) is the lead's C07: its generic tokenizer (lib/Recv.v) is composed with the object "
+        "layer in C01_end_to_end_any_chunking (every packetisation); the tie of Recv.v to banana.py is C07's; the real "
         "receiver is run under 1-chunk / bytewise / random chunkings",
+        "canon (read-back of the model's heap) inverting the denotation is checked per case by vm_compute, not proved in general",
     ]
     ok, log = ctx.coq_build(["props/C01.vo"])
     from harness import c01_impl as I
     before = len(ctx.failures)
     model_ok = ok
     if not ok:
-        model_ok, _ = ctx.coq_build(["lib/Obj.vo"])
+        model_ok, _ = ctx.coq_build(["lib/ObjDefer.vo"])
 
     del COUNTER_CASES[:]
+    del REFUSED_CASES[:]
+    del CRAFTED_OK[:]
     coq_cases = []      # (scoped, n, terms, vocab strings or None, bytes)
     switch_cases = []   # (tbl0, n, terms1, tbl1, terms2, bytes)
 
@@ -72,6 +83,9 @@ def run(ctx):
     # ---- 2. findings: deterministic witnesses of the known-defective region
     finding_witnesses(ctx, I)
 
+    # ---- 2b. token streams no sender emits (written with the real token writers): immutables that wait for each other
+    crafted_streams(ctx, I)
+
     # ---- 3. generated graphs through storage (scoped root), three chunkings, with / without a vocabulary
     rng = ctx.rng
     ngraphs = ctx.n(260, 1500)
@@ -83,7 +97,7 @@ def run(ctx):
         voc = vocab_v1() if r_ < 0.3 else (random_words(rng) or None) if r_ < 0.45 else None
         roundtrip_case(ctx, I, "gen%d" % i, [g], voc, coq_cases)
     # integers around every boundary, one by one (cheap, exhaustive over the boundary list)
-    ints = I.int_boundaries(1024)
+    ints = I.int_boundaries(1024 if ctx.tier == "thorough" else 256)   # quick: up to 2^2048 (+ the 2^8000 corpus witness); thorough: up to 2^8192
     for lo in range(0, len(ints), 40):
         roundtrip_case(ctx, I, "ints%d" % lo, [ints[lo:lo + 40]], None, coq_cases)
     roundtrip_case(ctx, I, "floats", [[I.float_of_bits(h) for h in I.FLOAT_BITS]], None, coq_cases)
@@ -109,13 +123,18 @@ def run(ctx):
         nm, argsets = followers[j % len(followers)]
         call_case(ctx, I, nm, argsets, coq_cases, vi=None, chunk="one", preludes=(pre,))
         call_case(ctx, I, nm + "/bytewise", argsets, coq_cases, vi=1, chunk="bytewise", preludes=(pre, rejected_preludes(I)[(j + 5) % 11]))
-    for name, argsets in late_tuple_calls(I) + computed_copy_calls(I) + long_name_calls(I):
+    # Copyable classes registered AFTER the connection was made (lazily imported module): names longer than every name known at
+    # connection time, and short ones; as arguments, inside containers, and echoed back in an answer
+    for name, argsets in late_registration_calls(I):
+        call_case(ctx, I, name, argsets, coq_cases, vi=None, chunk="one")
+        call_case(ctx, I, name + "/bytewise", argsets, coq_cases, vi=1, chunk="bytewise")
+    for name, argsets in same_object_calls(I) + late_tuple_calls(I) + computed_copy_calls(I) + long_name_calls(I):
         call_case(ctx, I, name, argsets, coq_cases, vi=None, chunk="one")
         call_case(ctx, I, name + "/bytewise", argsets, coq_cases, vi=1, chunk="bytewise")
 
     # ---- 6. correspondence with the Coq model
     if model_ok:
-        correspond(ctx, I, coq_cases, switch_cases)
+        correspond(ctx, I, coq_cases + CRAFTED_OK, switch_cases)
     else:
         ctx.fail("correspondence-broken", "lib/Obj.v does not build against the regenerated gen/SlicersGen.v:\n" + tail(log),
                  replay=dict(log=tail(log, 6000)), has_input=False)
@@ -164,7 +183,25 @@ def witnesses(I):
     def copy_twice():
         c = I.CB(); c.v = [1]; return [c, c]
 
+    def frozen_twice():
+        fs = frozenset([b"read", b"write"]); e = frozenset()
+        return [fs, fs, {fs: [fs]}, (fs, {fs, 7}), e, [e], (e, e)]
+
+    def frozen_twice_cycle():
+        c = I.CA(); fs = frozenset([c, 1]); L = [fs]; c.x = [1]; L.append(L); L.append((fs, fs))
+        return L
+
+    def same_object_everywhere():
+        # ONE object of every value kind at several places of one graph: whatever a slicer's trackReferences says, the value
+        # and type must arrive at every place
+        out = []
+        for x in (frozenset([1, 2]), (1, 2), "text", b"bytes", 2 ** 70, -2 ** 70, 1.5, D("1.50"), True, None, frozenset(), ()):
+            out.append([x, x, (x, [x]), {"a": x, "b": x}])
+        return out
+
     return [
+        ("frozenset-twice", frozen_twice, False), ("frozenset-twice-cycle", frozen_twice_cycle, False),
+        ("same-object-everywhere", same_object_everywhere, False),
         ("D4-mixed-keys", lambda: {1: 2, "a": 3}, False),
         ("D4-mixed-keys-nested", lambda: [{(1, 2): "x", b"k": 1.5, None: None, "a": []}], False),
         ("self-list", self_list, False), ("tuple-list-cycle", tuple_list_cycle, False), ("aliasing", aliasing, False),
@@ -245,6 +282,31 @@ def computed_copy_calls(I):
                             ((B([1, 2], [1, 2]), B([1, 2], [1, 2])), {})]),
         ("computed/same-instance-twice", [((lambda b: (b, b, [b, b]))(B([1, 2, 3])), {}), ((lambda p: ([p, p], p))(Pt(4, 5)), {})]),
     ]
+
+
+def late_registration_calls(I):
+    def mk(longer, n):
+        def build():
+            classes = [I.late_copyable(longer) for _ in range(n)]
+            objs = []
+            for i, cls in enumerate(classes):
+                o = cls(); o.v = [i, (i,)]; o.w = "late"
+                objs.append(o)
+            first = objs[0]
+            return [((first, [first], {"k": (objs[-1],)}), {"kw": objs[-1]}), ((objs,), {})]
+        return build
+    return [("call-late-registered-copyable/longer-name", mk(True, 1)), ("call-late-registered-copyable/several-longer", mk(True, 3)),
+            ("call-late-registered-copyable/short-name", mk(False, 2))]
+
+
+def same_object_calls(I):
+    """one object of an immutable kind at several places of ONE call (and again in the next call)"""
+    D = decimal.Decimal
+    out = []
+    for nm, x in (("frozenset", frozenset([b"read", b"write"])), ("empty-frozenset", frozenset()), ("tuple", (1, (2,))), ("text", "text"),
+                  ("decimal", D("2.50")), ("bigint", 2 ** 80)):
+        out.append(("call-same-%s" % nm, [((x, [x, x], (x,)), {"kw": x, "d": {"k": [x]}}), ((x, x), {})]))
+    return out
 
 
 def long_name_graphs(I):
@@ -335,6 +397,8 @@ def roundtrip_case(ctx, I, name, objs, voc, coq_cases, corpus=False):
         ctx.traces += 1
         if r[0] != "ok":
             ok_all = False
+            if how == "one" and len(data) <= 3000:
+                REFUSED_CASES.append(dict(name=name, terms=terms, voc=voc, data=data, how=r[0]))
             ctx.hist("outcome", "receive-failed" + ("(hazard)" if hazards else ""))
             ctx.fail(sig_for_failure("recv", r[1], hazards), "serialized graph could not be unserialized (%s, chunking %s): %s; graph: %s"
                      % (r[0], how, r[1], " ; ".join(key)[:700]),
@@ -420,6 +484,8 @@ def finding_witnesses(ctx, I):
             continue
         data = bytes(b.transport.out)
         r = I.receive(data, [])
+        if r[0] != "ok" and terms is not None:
+            REFUSED_CASES.append(dict(name=name, terms=terms, voc=None, data=data, how=r[0]))
         if r[0] != "ok":
             ctx.fail(sig_for_failure("recv", r[1], hazards), "serialized graph could not be unserialized (%s): %s; graph: %s"
                      % (r[0], r[1], " ; ".join(key)[:300]), replay=dict(case=name, term=key, error=r[1], data=data.hex()))
@@ -429,6 +495,40 @@ def finding_witnesses(ctx, I):
             ctx.fail("oracle/" + oracle_sig(d, I, terms), "round trip changed the graph: %s; graph %s: %s" % (d, name, " ; ".join(key)[:300]),
                      replay=dict(case=name, term=key, python='L=[]; d={}; T=(d,L); d["k"]=T; L.append(T)' if name.startswith("tuple-dictvalue") else name))
 
+
+CRAFTED = [
+    # (name, canonical term): tuples that directly hold each other / themselves -- no Python object graph has these, a peer can send them
+    ("wait-cycle", ("cont", "tuple", b"", [("cont", "list", b"", [("cont", "tuple", b"", [("ref", 0)])]), ("ref", 2)])),
+    ("self-tuple", ("cont", "list", b"", [("cont", "tuple", b"", [("ref", 1)])])),
+    ("late-chain", ("cont", "tuple", b"", [("cont", "list", b"", [("cont", "tuple", b"", [("cont", "list", b"", [("cont", "tuple", b"", [("ref", 0)])]), ("ref", 4)])])])),
+]
+
+
+def crafted_streams(ctx, I):
+    """write the token stream of a canonical term with the real low-level writers (sendOpen / sendToken / sendClose), feed
+    it to the real receiver; the Deferred-level model must end the same way (delivered the denoted graph / not delivered)"""
+    for name, term in CRAFTED:
+        b = I.new_sender()
+        I.write_term(b, term)
+        data = bytes(b.transport.out)
+        r = I.receive(data, [])
+        ctx.case(dict(crafted=name), nontrivial=True)
+        ctx.traces += 1
+        if r[0] == "ok":
+            try:
+                I.match_all([term], r[1], 0)
+            except I.Mismatch as m:
+                # no sender emits this stream; a placeholder was left inside the delivered object: "not delivered" for the model
+                REFUSED_CASES.append(dict(name="crafted-" + name, terms=[term], voc=None, data=data, how="placeholder-left"))
+                ctx.hist("outcome", "crafted:placeholder-left")
+                continue
+            CRAFTED_OK.append(dict(name="crafted-" + name, scoped=True, n=0, terms=[term], voc=None, data=data, hazard=False, crafted=True))
+        else:
+            REFUSED_CASES.append(dict(name="crafted-" + name, terms=[term], voc=None, data=data, how=r[0]))
+        ctx.hist("outcome", "crafted:" + r[0])
+
+
+CRAFTED_OK = []
 
 VOCAB_POOL = [b"list", b"tuple", b"dict", b"unicode", b"reference", b"boolean", b"none", b"set", b"immutable-set", b"copyable",
               b"decimal", b"verif.c01.A", b"x", b"y", b"a", b"", b"set-vocab", b"items", b"count", b"v"]
@@ -602,6 +702,7 @@ def rejected_preludes(I, rng=None):
     ]
 
 
+REFUSED_CASES = []       # graphs the real receiver refused / never completed: the Deferred-level model must not deliver them
 COUNTER_CASES = []       # (direction, bytes of one rejected message, how far the receiver's objectCounter moved)
 
 
@@ -647,6 +748,8 @@ def call_case(ctx, I, name, argsets, coq_cases, vi=None, chunk=None, preludes=()
     I.KEEP.clear()
     P = I.Pair(vi)
     voc = vocab_v1() if vi else None
+    if callable(argsets):
+        argsets = argsets()          # built AFTER the connection exists (e.g. Copyable classes registered late)
     try:
         for a, kw in argsets:
             for x in list(a) + [kw[k] for k in sorted(kw)]:
@@ -686,7 +789,9 @@ def call_case(ctx, I, name, argsets, coq_cases, vi=None, chunk=None, preludes=()
     shape = (("[after rejected: %s] " % ", ".join("%s %s%r" % (p[4], p[1], (p[2], p[3])) for p in preludes)[:500]) if preludes else "") + \
         " ; ".join(I.term_coq(t) for t in terms)[:900]
     if len(P.target.calls) != len(argsets) or P.t_caller.closed or P.t_callee.closed:
-        ctx.fail("oracle/call-not-delivered", "a call whose arguments share objects was not delivered (delivered %d of %d, connection %s); calls: %s"
+        ctx.fail("oracle/call-not-delivered" + ("/copyable-registered-after-connection" if "late-registered" in name else ""),
+                 ("[history: connection made, THEN the Copyable classes of this call were registered, then the call] " if "late-registered" in name else "") +
+                 "a call whose arguments share objects was not delivered (delivered %d of %d, connection %s); calls: %s"
                  % (len(P.target.calls), len(argsets), "closed" if P.t_caller.closed or P.t_callee.closed else "open", shape),
                  replay=dict(case=name, args=repr(argsets)[:1500], terms=shape))
         return
@@ -800,17 +905,28 @@ Definition chk (c : bool * Z * list obj * vtable * list Z * bool) : Z :=
   let wire := envocab tbl toks in
   let b_tok := forallb wf_token wire in
   let b_send := match encode_stream wire with Ok b => list_eqb b bs | Exc _ => false end in
-  let b_recv := match (if dec then decode bs else (wire, EndClean)) with   (* long streams: Token.decode is quadratic; stream_roundtrip covers it *)
-                | (w, EndClean) =>
-                  match devocab tbl w with
-                  | Some tk => match unslice sc n tk with
-                               | Some (h, vs) => match canon_list (fuel_of ts) h n vs with
-                                                 | Some (os, _) => objs_eqb os ts
-                                                 | None => false end
-                               | None => false end
-                  | None => false end
-                | _ => false end in
-  (if b_wf then 1 else 0) + (if b_tok then 2 else 0) + (if b_send then 4 else 0) + (if b_recv then 8 else 0).
+  let tko := match (if dec then decode bs else (wire, EndClean)) with   (* long streams: Token.decode is quadratic; stream_roundtrip covers it *)
+             | (w, EndClean) => devocab tbl w
+             | _ => None end in
+  let same := fun (r : option (heap * list value)) =>
+                match r with
+                | Some (h, vs) => match canon_list (fuel_of ts) h n vs with
+                                  | Some (os, _) => objs_eqb os ts
+                                  | None => false end
+                | None => false end in
+  let b_recv := match tko with Some tk => same (unslice sc n tk) | None => false end in
+  (* the Deferred-level receiver (placeholders, update callbacks, cascading completion) on the same tokens *)
+  let b_drecv := match tko with Some tk => same (dunslice sc n tk) | None => false end in
+  let b_wide := match wf_list_wide sc [] [] n ts with Some _ => true | None => false end in
+  (if b_wf then 1 else 0) + (if b_tok then 2 else 0) + (if b_send then 4 else 0) + (if b_recv then 8 else 0)
+  + (if b_drecv then 16 else 0) + (if b_wide then 32 else 0).
+(* graphs the real receiver refused or never completed: how the Deferred-level model ends (0 delivered, 1 refused, 2 left pending) *)
+Definition rchk (c : vtable * list Z) : Z :=
+  let '(tbl, bs) := c in
+  match decode bs with
+  | (w, EndClean) => match devocab tbl w with Some tk => doutcome true 0 tk | None => 9 end
+  | _ => 9
+  end.
 """
 
 VCHK = ZB + """
@@ -874,9 +990,12 @@ def correspond(ctx, I, coq_cases, switch_cases):
             return
         for (c, _), v in zip(shard, vals):
             total += 1
-            want = 15
-            if v == 14 and I.has_deferred_tuple(c["terms"], c["n"]):
-                ctx.hist("outcome", "outside-theorem-guard(deferred tuple), model agrees")
+            want = 63
+            if c.get("crafted") and v in (60, 28, 62, 30):
+                ctx.hist("outcome", "crafted stream delivered, Deferred-level model agrees")
+                continue
+            if v == 62 and I.has_deferred_tuple(c["terms"], c["n"]):
+                ctx.hist("outcome", "deferred completion: Deferred-level model agrees (deferred_sound applies)")
                 continue
             if v != want:
                 nbad += 1
@@ -889,7 +1008,13 @@ def correspond(ctx, I, coq_cases, switch_cases):
                     what.append("sender: bytes written by the real serializer differ from encode_stream (envocab tbl (slice term))")
                 if not v & 8:
                     what.append("receiver: canon (unslice (devocab (decode real bytes))) differs from the term")
-                sig = "correspondence/sender-bytes" if not v & 4 else ("correspondence/receiver-model" if not v & 8 else "correspondence/wf")
+                if not v & 16:
+                    what.append("receiver: the Deferred-level model (placeholders, update callbacks, completion cascade) does not deliver the "
+                                "term's graph although the implementation did")
+                if not v & 32:
+                    what.append("the canonical term is outside the wide guard (wf_list_wide)")
+                sig = "correspondence/sender-bytes" if not v & 4 else ("correspondence/receiver-model" if not v & 8 else
+                                                                        ("correspondence/deferred-receiver" if not v & 16 else "correspondence/wf"))
                 ctx.fail(sig, "model and implementation disagree on case %s: %s; term: %s" %
                          (c["name"], "; ".join(what), " ; ".join(term_coq(t) for t in c["terms"])[:600]),
                          replay=dict(case=c["name"], code=v, term=[term_coq(t) for t in c["terms"]], data=c["data"].hex()[:4000],
@@ -915,6 +1040,25 @@ def correspond(ctx, I, coq_cases, switch_cases):
                          % (v, c["tbl0"][:6], c["tbls"], " ; ".join(term_coq(t) for t in c["terms"])[:500]),
                          replay=dict(code=v, terms=[term_coq(t) for t in c["terms"]], tbls=repr(c["tbls"]), data=c["data"].hex()[:4000]),
                          has_input=False)
+    # graphs the implementation refused (known-defective region) or never completed: the Deferred-level model must not deliver them
+    if REFUSED_CASES:
+        rows = ["(%s, %s)" % (coq_tbl(c["voc"] or []), coq_Zs(c["data"])) for c in REFUSED_CASES]
+        body = "Open Scope Z_scope.\n" + CHK + "Definition cases : list (vtable * list Z) := [\n" + ";\n".join(rows) + \
+               "].\nEval vm_compute in map rchk cases.\n"
+        try:
+            (vals,) = ctx.coq_eval("C01_refused", body, requires=REQ)
+        except common.CoqEvalError as e:
+            ctx.fail("correspondence-broken", "the model could not be evaluated (refused graphs): " + str(e)[-1500:], has_input=False)
+            return
+        for c, v in zip(REFUSED_CASES, vals):
+            total += 1
+            ctx.hist("outcome", "refused by the implementation (%s), Deferred-level model: %s" % (c["how"], {0: "delivered", 1: "refused", 2: "pending"}.get(v, v)))
+            if v not in (1, 2):
+                nbad += 1
+                ctx.fail("correspondence/deferred-refusal", "the implementation did not deliver %s (%s) but the Deferred-level model %s; term: %s"
+                         % (c["name"], c["how"], "delivers it" if v == 0 else "cannot read the stream",
+                            " ; ".join(term_coq(t) for t in c["terms"])[:600]),
+                         replay=dict(case=c["name"], code=v, term=[term_coq(t) for t in c["terms"]], data=c["data"].hex()[:4000]), has_input=False)
     # rejected messages: the receiver's counter moves by the number of OPEN tokens in the message, discarded or not
     if COUNTER_CASES:
         rows = ["(%s, %d)" % (coq_Zs(d_), delta) for _, d_, delta in COUNTER_CASES]
